@@ -69,6 +69,8 @@ def cases(seed, tier):
             clock = 'jump_back'
         c = {'profile': p, 'skip': skip, 'adm': adm, 'clock': clock, 'knobs': knobs, 'net': {'rtt_us': rng.choice([40, 200, 1000, 8000, 60000, 200000])},
              'opts': rng.choice([['-n'], ['-j'], ['-n', '-v'], ['-n', '-P', 'Hardened OpenSSH Server v9.9 (version 1)']]), 'timeout': rng.choice([1, 2, 5]), 'pseed': rng.getrandbits(32)}
+        if gen.case_rng(seed, ID, i, 'via').random() < 0.12:
+            c['via_file'] = True
         if rng.random() < 0.3:
             kind = rng.choice(['truncate_stall', 'truncate_close', 'garbage', 'truncate_reset', 'wrongtype', 'badblob', 'late'])
             f = {'conn': rng.randrange(1, 10), 'msg': rng.choice(['banner', 'kexinit', 'reply', 'reply', 'group']), 'kind': kind, 'off': rng.choice([0, 7, 50]), 'n': 30}
@@ -100,8 +102,12 @@ def run_case(case, ctx):
         names = [n for n in builtin_policy_names() if 'Server' in n]
         if opts[opts.index('-P') + 1] not in names:
             opts[opts.index('-P') + 1] = sorted(names)[-1]
-    argv = opts + (['--skip-rate-test'] if case['skip'] else []) + ['-t', str(case['timeout']), 'srv.example']
+    argv = opts + (['--skip-rate-test'] if case['skip'] else []) + ['-t', str(case['timeout'])] + (['-T', '{DIR}/targets.txt'] if case.get('via_file') else ['srv.example'])
     plan = gen.server_plan(case['pseed'], argv, p, port=22, net=case['net'], knobs=case['knobs'], faults=case.get('faults'))
+    if case.get('via_file'):
+        # the same audit requested through a one-line targets file: the footprint is that of the audit, however the target was named
+        plan['dir'] = ctx.scratch()
+        plan['files'] = {'targets.txt': 'srv.example\n'}
     plan['knobs']['max_events'] = 3_000_000
     plan['knobs']['max_conns'] = 1500      # far above any legitimate footprint; keeps a runaway rate test cheap to simulate
     rec = ctx.run(plan, real_timeout=120.0)
